@@ -359,7 +359,11 @@ def _check_history(case, env):
             _, m, src = op
             if m != src:
                 lines.append("M%d = +M%d;" % (m, src))
-                maps[m] = {ck: [json.loads(json.dumps(e[0])), e[1]] for ck, e in maps[src].items()}
+                # a copy shares nothing with its source: an array held as value is copied too (its contents at this moment)
+                maps[m] = {ck: [json.loads(json.dumps(e[0])), (("snap", json.loads(json.dumps(keys[e[1][1]]))) if isinstance(e[1], tuple) and e[1][0] == "ref" else e[1])]
+                           for ck, e in maps[src].items()}
+                if any(isinstance(e[1], tuple) and e[1][0] == "ref" for e in maps[src].values()):
+                    labs.add("copy_of_map_with_array_value")
                 copied = True
                 labs.add("copy")
         elif k == "fromarray":
@@ -397,7 +401,7 @@ def _check_history(case, env):
                 obs.append("M%d get K%d" % (m, ki))
                 if present:
                     val = maps[m][ck][1]
-                    exp.append(keys[val[1]] if isinstance(val, tuple) else val)
+                    exp.append((keys[val[1]] if val[0] == "ref" else val[1]) if isinstance(val, tuple) else val)
                 else:
                     exp.append(None)
             obs.append("keys M%d" % m)
